@@ -17,7 +17,7 @@ func init() {
 		Rules: map[string]string{
 			"R1": "hand methods are pure on error: no hand-state store / send / state update on any path to an error exit; error exits return (stored state, err)",
 			"R2": "every backend error is tested and propagated to the caller or to the error callback; never dropped; nothing is updated on the failing branch; no known-nil error returned (inverted test)",
-			"R3": "error callback registered before Start; it and the engine's own step handlers reach the table error event; every On<X> setter of the hand and of the engine stores the callback into its own slot",
+			"R3": "error callback registered before Start; it and the engine's own step handlers reach the table error event; every On<X> setter of the hand and of the engine stores the callback into its own slot; a new engine's callback slots default to the same-named callbacks; the manager registers every callback of the caller's callbacks struct through the same-named setter",
 			"R4": "engine action methods: effects only under err == nil (same analysis as C10.R3)",
 			"R5": "native backend: NewGameFromState(clone(arg)); returns clone(state) on success, nil on error",
 		},
@@ -58,6 +58,8 @@ func isBackendCall(cm *ssa.CallCommon) bool {
 
 func checkC13(c *Ctx) {
 	p := c.P
+	checkEngineCallbackDefaults(c, "R3")
+	checkManagerCallbackWiring(c, "R3")
 	checkCallbackSetters(c, "R3", "tableEngine", 5)
 	checkCallbackSetters(c, "R3", "game", 5)
 	checkNoKnownNilErrorReturn(c, "R2", func(f *ssa.Function) bool { return inPkg(p, f, "") && f.Parent() == nil }, 20)
